@@ -650,6 +650,23 @@ pub fn run(cfg: &Cfg, rep: &mut Report) {
             }
         }
     }
+    // chains made of assignment operators and plain operands only (the same operator twice, any two, three in a row)
+    for a1 in assigns {
+        for a2 in assigns {
+            for (cell, k) in [("mut 8", "3"), ("mut 8", "1"), ("mut true", "false")] {
+                ctx.template_rel(&format!("c := {cell}; d := {cell}; y := c {a1} d {a2} {k}; (y, *c, *d)"), &format!("c := {cell}; d := {cell}; y := c {a1} (d {a2} {k}); (y, *c, *d)"), &format!("assign-chain:{a1}:{a2}"));
+                ctx.template_rel(&format!("c := {cell}; d := {cell}; c {a1} d {a2} ({k}); (*c, *d)"), &format!("c := {cell}; d := {cell}; c {a1} (d {a2} ({k})); (*c, *d)"), &format!("assign-chain:{a1}:{a2}"));
+                ctx.template_rel(&format!("c := {cell}; d := {cell}; e := {cell}; c {a1} d {a2} e {a1} {k}; (*c, *d, *e)"), &format!("c := {cell}; d := {cell}; e := {cell}; c {a1} (d {a2} (e {a1} {k})); (*c, *d, *e)"), &format!("assign-chain3:{a1}:{a2}"));
+            }
+        }
+    }
+    // ... and of one binary operator only (left to right), with plain and parenthesised operands
+    for (op, _) in BIN.iter() {
+        for (a, b, c) in [("7", "3", "2"), ("2", "3", "2"), ("true", "false", "true"), ("(7)", "(3)", "(2)"), ("hi(7)", "hi(3)", "hi(2)")] {
+            ctx.template_rel(&format!("{a} {op} {b} {op} {c}"), &format!("({a} {op} {b}) {op} {c}"), &format!("same-operator-chain:{op}"));
+            ctx.template_rel(&format!("{a} {op} {b} {op} {c} {op} {a}"), &format!("(({a} {op} {b}) {op} {c}) {op} {a}"), &format!("same-operator-chain4:{op}"));
+        }
+    }
     let _ = truncate("", 1);
 }
 
